@@ -14,6 +14,21 @@ def make_model(model_name, cfg, Ms=None):
     return Ms[model_name](**c)
 
 
+def in_box(cfg, teams):
+    """are all priors of this game inside the supported numeric range of C08 (|mu| <= 20 beta, sigma in [1e-4, 10] beta)?"""
+    b = cfg.get("beta", 25 / 6)
+    return all(abs(p.mu) <= 20 * b and 1e-4 * b <= p.sigma <= 10 * b for t in teams for p in t)
+
+
+def league_cfg(rng, gen, **kw):
+    """a model configuration for leagues: tau at most 0.3 beta, so that thousands of fed-back games stay inside the
+    supported range (with tau = 10 beta per game and adversarial outcomes mu grows geometrically and leaves it)"""
+    cfg = gen.gen_cfg(rng, **kw)
+    b = cfg["beta"]
+    cfg["tau"] = rng.choice([0.0, 1e-3 * b, cfg["mu"] / 300.0, cfg["mu"] / 300.0, 0.1 * b, 0.3 * b])
+    return cfg
+
+
 def league(params, on_game, Ms=None):
     """Deterministic league from params = dict(model, cfg, players, games, mode, seed, percall).
     on_game(step, model, teams(objects before), kwargs, prior [[(mu, sigma)]], call) must perform the rate call
@@ -59,7 +74,7 @@ def league(params, on_game, Ms=None):
         call = {}
         if params.get("percall"):
             if rng.random() < 0.3:
-                call["tau"] = rng.choice([0, 0.0, 1e-3 * beta, beta, cfg.get("tau", 25 / 300)])
+                call["tau"] = rng.choice([0, 0.0, 1e-3 * beta, 0.3 * beta, cfg.get("tau", 25 / 300)])
             if rng.random() < 0.3:
                 call["limit_sigma"] = rng.choice([True, False])
         kw.update(call)
